@@ -25,6 +25,9 @@ pub struct Item {
     kind: TsKind,
     ext: bool,
     name: u8,
+    /// a definition that carries nothing optional: no directives, no implemented interfaces
+    /// (so that every extension adds to an *empty* component)
+    bare: bool,
 }
 
 fn alphabet() -> Vec<Item> {
@@ -32,14 +35,34 @@ fn alphabet() -> Vec<Item> {
     for kind in [TsKind::Object, TsKind::Interface, TsKind::Union, TsKind::Enum, TsKind::Input, TsKind::Scalar] {
         for ext in [false, true] {
             for name in 0..2u8 {
-                v.push(Item { kind, ext, name });
+                v.push(Item { kind, ext, name, bare: false });
             }
         }
     }
-    v.push(Item { kind: TsKind::Schema, ext: false, name: 0 });
-    v.push(Item { kind: TsKind::Schema, ext: true, name: 0 });
-    v.push(Item { kind: TsKind::Directive, ext: false, name: 0 });
-    v.push(Item { kind: TsKind::Directive, ext: false, name: 1 });
+    v.push(Item { kind: TsKind::Schema, ext: false, name: 0, bare: false });
+    v.push(Item { kind: TsKind::Schema, ext: true, name: 0, bare: false });
+    v.push(Item { kind: TsKind::Directive, ext: false, name: 0, bare: false });
+    v.push(Item { kind: TsKind::Directive, ext: false, name: 1, bare: false });
+    v
+}
+
+/// second family: bare definitions of `A` of every kind, and (tagged) extensions of `A`
+fn alphabet_bare() -> Vec<Item> {
+    let mut v = vec![];
+    for kind in [TsKind::Object, TsKind::Interface, TsKind::Union, TsKind::Enum, TsKind::Input, TsKind::Scalar, TsKind::Schema] {
+        v.push(Item { kind, ext: false, name: 0, bare: true });
+        v.push(Item { kind, ext: true, name: 0, bare: false });
+    }
+    v
+}
+
+fn alphabet_all() -> Vec<Item> {
+    let mut v = alphabet();
+    for i in alphabet_bare() {
+        if !v.contains(&i) {
+            v.push(i);
+        }
+    }
     v
 }
 
@@ -103,6 +126,10 @@ fn build(it: Item, i: usize) -> TsDef {
                 dirs: vec![],
             }]);
         }
+    }
+    if it.bare {
+        d.dirs.clear();
+        d.implements.clear();
     }
     d
 }
@@ -288,8 +315,7 @@ fn seq_json(seq: &[Item]) -> J {
 pub fn run(args: &Args) -> i32 {
     let rep = Reporter::new("C11", &args.tier);
     crate::util::install_hook();
-    let alpha = alphabet();
-    let a = alpha.len();
+    let all = alphabet_all();
     let depth = if args.quick() { 4 } else { 5 };
     let cnt = Cnt {
         cases: AtomicU64::new(0),
@@ -298,6 +324,10 @@ pub fn run(args: &Args) -> i32 {
         outcomes: Mutex::new(BTreeMap::new()),
     };
     let distinct = DistinctSet::new();
+    let families: Vec<(Vec<Item>, usize)> = vec![(alphabet(), depth), (alphabet_bare(), depth)];
+    let a = families[0].0.len();
+    for (alpha, depth) in &families {
+    let (alpha, depth, a) = (alpha.clone(), *depth, alpha.len());
     for len in 1..=depth {
         let total = a.pow(len as u32);
         let heads = a.pow(len.min(2) as u32);
@@ -334,12 +364,12 @@ pub fn run(args: &Args) -> i32 {
                         Ok(Err((key, what))) => rep.report(Violation {
                             key,
                             what,
-                            case: json!({"seq": seq_json(&seq), "cut": cut, "seq_idx": seq.iter().map(|i| alpha.iter().position(|x| x == i).unwrap()).collect::<Vec<_>>()}),
+                            case: json!({"seq": seq_json(&seq), "cut": cut, "seq_idx": seq.iter().map(|i| all.iter().position(|x| x == i).unwrap()).collect::<Vec<_>>()}),
                         }),
                         Err(p) => rep.report(Violation {
                             key: format!("panic@{}", p.key()),
                             what: format!("panic at {}: {}", p.site, p.msg),
-                            case: json!({"seq": seq_json(&seq), "cut": cut, "seq_idx": seq.iter().map(|i| alpha.iter().position(|x| x == i).unwrap()).collect::<Vec<_>>()}),
+                            case: json!({"seq": seq_json(&seq), "cut": cut, "seq_idx": seq.iter().map(|i| all.iter().position(|x| x == i).unwrap()).collect::<Vec<_>>()}),
                         }),
                     }
                 }
@@ -350,6 +380,8 @@ pub fn run(args: &Args) -> i32 {
             }
         });
     }
+    }
+    let alpha = alphabet();
     let cases = cnt.cases.load(Ordering::Relaxed);
     let sample_seq = [alpha[1 * 0 + 2], alpha[0], alpha[3], alpha[2]];
     let sample_defs: Vec<TsDef> = sample_seq.iter().enumerate().map(|(i, it)| build(*it, i)).collect();
@@ -361,7 +393,7 @@ pub fn run(args: &Args) -> i32 {
         "distinct_nontrivial": cnt.ok.load(Ordering::Relaxed),
         "rule": "every sequence of <= depth items over a 28-letter alphabet ({definition, extension} x {object, interface, union, enum, input, scalar} x {A, B}, schema definition/extension, two directive definitions) x every file cut point; non-trivial = a document that merges (reference and subject both succeed) and was compared component-wise",
         "exhaustive": true,
-        "bound": {"depth": depth, "alphabet": a, "cuts": "all for length <= 4; none/first/middle for length 5"},
+        "bound": {"depth": depth, "alphabet": a, "second_family": "bare definitions (no directives / interfaces) of A of every kind + extensions of A: 14 letters, same depth", "cuts": "all for length <= 4; none/first/middle for length 5"},
         "outcomes": *cnt.outcomes.lock().unwrap(),
         "error_cases_checked_for_position": cnt.err.load(Ordering::Relaxed),
         "samples": [{"files": [render_items(&sample_defs[..2]), render_items(&sample_defs[2..])]}],
@@ -376,7 +408,7 @@ pub fn run(args: &Args) -> i32 {
 }
 
 pub fn replay(case: &J) -> i32 {
-    let alpha = alphabet();
+    let alpha = alphabet_all();
     let seq: Vec<Item> = case["seq_idx"].as_array().unwrap().iter().map(|i| alpha[i.as_u64().unwrap() as usize]).collect();
     let cut = case["cut"].as_u64().unwrap() as usize;
     let defs: Vec<TsDef> = seq.iter().enumerate().map(|(i, it)| build(*it, i)).collect();
